@@ -96,6 +96,10 @@ func ReadSpec(path string, priority int) (*Spec, error) {
 // priority. If Spec data validation fails newSpec returns a nil
 // Spec and an error.
 func newSpec(raw *cdi.Spec, path string, priority int) (*Spec, error) {
+	if raw == nil {
+		return nil, fmt.Errorf("invalid CDI Spec: no Spec data")
+	}
+
 	err := validateSpec(raw)
 	if err != nil {
 		return nil, err
